@@ -102,7 +102,11 @@ func (w workflowEngine) Parse(
 		return nil, err
 	}
 	if stepWorkflowFileCache != nil {
-		files, err = loadfile.MergeFileCaches(stepWorkflowFileCache, files)
+		// A later cache overrides an earlier one. The sub-workflow files go last: a step's
+		// `workflow:` names a file, and must not be shadowed by a key the caller happens to use for
+		// another file (a sub-workflow file named like the key of the workflow itself would
+		// otherwise resolve to the workflow itself and be loaded recursively without end).
+		files, err = loadfile.MergeFileCaches(files, stepWorkflowFileCache)
 		if err != nil {
 			return nil, err
 		}
